@@ -201,7 +201,15 @@ fn read<T, E>(
     f: impl FnOnce() -> Result<T, E>,
 ) -> Result<Option<T>, Violation> {
     st.lib_calls += 1;
-    alloc::set_label(label);
+    // the abort side channel also says whether the image is in the empty form (whose size is
+    // implied by its configuration alone)
+    alloc::set_label(match (label, sub) {
+        ("BloomFilter::deserialize", "empty-form") => "BloomFilter::deserialize[empty-form]",
+        ("BloomFilter::deserialize", _) => "BloomFilter::deserialize[with-data]",
+        (l, "empty-form") if l.starts_with("CountMinSketch<") => cm_label(l, true),
+        (l, "with-data") if l.starts_with("CountMinSketch<") => cm_label(l, false),
+        (l, _) => l,
+    });
     let (r, rep) = alloc::scoped(|| lib_call(label, f));
     let r = r.map_err(|v| viol(ctx, v))?;
     let b = budget(ctx.buf.len());
@@ -479,6 +487,31 @@ fn recover_td(mut v: TDigestMut, ctx: &Ctx, st: &mut RunStats) -> Result<(), Vio
     Ok(())
 }
 
+fn cm_label(l: &'static str, empty: bool) -> &'static str {
+    const T: [&str; 8] = ["u8", "u16", "u32", "u64", "i8", "i16", "i32", "i64"];
+    const E: [&str; 8] = [
+        "CountMinSketch<u8>::deserialize[empty-form]", "CountMinSketch<u16>::deserialize[empty-form]", "CountMinSketch<u32>::deserialize[empty-form]", "CountMinSketch<u64>::deserialize[empty-form]",
+        "CountMinSketch<i8>::deserialize[empty-form]", "CountMinSketch<i16>::deserialize[empty-form]", "CountMinSketch<i32>::deserialize[empty-form]", "CountMinSketch<i64>::deserialize[empty-form]",
+    ];
+    const D: [&str; 8] = [
+        "CountMinSketch<u8>::deserialize[with-data]", "CountMinSketch<u16>::deserialize[with-data]", "CountMinSketch<u32>::deserialize[with-data]", "CountMinSketch<u64>::deserialize[with-data]",
+        "CountMinSketch<i8>::deserialize[with-data]", "CountMinSketch<i16>::deserialize[with-data]", "CountMinSketch<i32>::deserialize[with-data]", "CountMinSketch<i64>::deserialize[with-data]",
+    ];
+    for i in 0..8 {
+        if l == format!("CountMinSketch<{}>::deserialize", T[i]) {
+            return if empty { E[i] } else { D[i] };
+        }
+    }
+    l
+}
+
+fn flag_sub(buf: &[u8], mask: u8) -> &'static str {
+    match buf.get(3) {
+        Some(f) if f & mask != 0 => "empty-form",
+        _ => "with-data",
+    }
+}
+
 fn hll_sub(buf: &[u8]) -> &'static str {
     match buf.get(7).map(|b| b & 3) {
         Some(0) => "list",
@@ -534,7 +567,7 @@ pub fn deliver(fam: &str, buf: &[u8], what: &str, st: &mut RunStats) -> Result<(
             }
         }
         "bloom" => {
-            if let Some(v) = read("BloomFilter::deserialize", "", &ctx, st, |v: &BloomFilter| v.capacity() / 8, || BloomFilter::deserialize(buf))? {
+            if let Some(v) = read("BloomFilter::deserialize", flag_sub(buf, 4), &ctx, st, |v: &BloomFilter| v.capacity() / 8, || BloomFilter::deserialize(buf))? {
                 recover_bloom(v, &ctx, st)?;
             }
         }
@@ -562,10 +595,12 @@ pub fn deliver(fam: &str, buf: &[u8], what: &str, st: &mut RunStats) -> Result<(
             }
         }
         "td" => {
-            if let Some(v) = read("TDigestMut::deserialize(f64)", "", &ctx, st, |_| 0, || TDigestMut::deserialize(buf, false))? {
+            // a digest reserves its centroid array and buffer from k (configuration-implied size)
+            let td_implied = |v: &TDigestMut| (2 * v.k() as usize + 30) * (16 + 4 * 8);
+            if let Some(v) = read("TDigestMut::deserialize(f64)", "", &ctx, st, td_implied, || TDigestMut::deserialize(buf, false))? {
                 recover_td(v, &ctx, st)?;
             }
-            if let Some(v) = read("TDigestMut::deserialize(f32)", "", &ctx, st, |_| 0, || TDigestMut::deserialize(buf, true))? {
+            if let Some(v) = read("TDigestMut::deserialize(f32)", "", &ctx, st, td_implied, || TDigestMut::deserialize(buf, true))? {
                 recover_td(v, &ctx, st)?;
             }
         }
@@ -583,7 +618,7 @@ fn cm_deliver<T: CountMinValue + std::fmt::Debug>(label: &'static str, ctx: &Ctx
     let buf = ctx.buf;
     if let Some(v) = read(
         label,
-        "",
+        flag_sub(buf, 1),
         ctx,
         st,
         |v: &CountMinSketch<T>| v.num_hashes() as usize * v.num_buckets() as usize * std::mem::size_of::<T>(),
